@@ -1404,6 +1404,11 @@ func (gqm *GroupQuotaManager) doUpdateOneGroupMinQuotaNoLock(quotaName string, n
 			return
 		}
 		parentRuntimeCalculator.updateOneGroupMinQuota(curQuotaInfo)
+		// a quota that does not lend has its request raised to min, so the request seen by the
+		// parent's runtime calculator changes together with min.
+		if parentRuntimeCalculator.needUpdateOneGroupRequest(curQuotaInfo) {
+			parentRuntimeCalculator.updateOneGroupRequest(curQuotaInfo)
+		}
 
 		newSubLimitReq := curQuotaInfo.getLimitRequestNoLock()
 		deltaRequest := quotav1.Subtract(newSubLimitReq, oldSubLimitReq)
